@@ -2,7 +2,7 @@
 From Coq Require Import ZArith List Bool Lia.
 Import ListNotations.
 Require Import Verif.gen.Consts_rb Verif.gen.Consts_rbconc Verif.RbModel Verif.RbSpec Verif.RbProofs
-  Verif.RbConcModel Verif.RbConcProofs Verif.RbConcInv.
+  Verif.RbConcModel Verif.RbConcProofs Verif.RbConcProofsInv.
 Local Open Scope Z_scope.
 
 Fixpoint times {A} (n : nat) (x : A) : list A := match n with O => [] | S k => x :: times k x end.
